@@ -242,6 +242,11 @@ func c18StartProbe(cfg *config.Config, probe bool) (err error) {
 	return nil
 }
 
+type c18Bin struct {
+	Kind string `json:"kind"`
+	Idx  int    `json:"idx"`
+}
+
 var yamlBlock = regexp.MustCompile("(?s)```ya?ml\\n(.*?)```")
 
 func init() {
@@ -455,10 +460,6 @@ func init() {
 		})
 
 	// ---- process level: accepted configurations start completely or fail cleanly
-	type c18Bin struct {
-		Kind string `json:"kind"`
-		Idx  int    `json:"idx"`
-	}
 	vh.AddPart("C18", "binary", "plain", vh.Opts{Shards: 8, Procs: 2, TimeoutS: 400, NeedBin: true},
 		func(e *vh.Env) []c18Bin {
 			cs := []c18Bin{{"sample-file", 0}, {"sample-file", 1}}
@@ -472,201 +473,12 @@ func init() {
 		},
 		func(e *vh.Env, c c18Bin, o *vh.Out) {
 			o.Need("binary_started_completely", "binary_failed_cleanly")
-			be := vh.NewBackend("b0")
-			defer be.Close()
-			var cfg *config.Config
-			switch c.Kind {
-			case "sample-file":
-				f := []string{"helios.yaml", "helios.docker.yaml"}[c.Idx]
-				lc, err := config.LoadConfig(filepath.Join(e.RepoDir, f))
-				if err != nil {
-					o.Viol("C18|documented-rejected|"+f+"|"+c18ErrClass(err), fmt.Sprintf("%s: %v", f, err), nil)
+			for attempt := 0; attempt < 4; attempt++ {
+				if !c18BinOnce(e, c, o) {
 					return
 				}
-				cfg = lc
-			default:
-				r := e.Rand("c18bin", c.Kind, c.Idx)
-				for {
-					m := map[string]int{}
-					for _, s := range c18Order {
-						vs := c18Sections[s]
-						for {
-							i := r.Intn(len(vs))
-							if vs[i].OK && !vs[i].MayRefuse {
-								m[s] = i
-								break
-							}
-						}
-					}
-					text, _, _ := c18Doc{m, "bin"}.text()
-					lc, err := c18LoadText(e, text, "bin")
-					if err == nil && !lc.Server.TLS.Enabled {
-						cfg = lc
-						break
-					}
-				}
 			}
-			// rewrite addresses and ports to this machine
-			for i := range cfg.Backends {
-				cfg.Backends[i].Address = be.URL
-			}
-			cfg.Server.Port = freePort()
-			if cfg.Metrics.Enabled {
-				cfg.Metrics.Port = freePort()
-			}
-			if cfg.AdminAPI.Enabled {
-				cfg.AdminAPI.Port = freePort()
-				cfg.AdminAPI.IPAllowList, cfg.AdminAPI.IPDenyList = nil, nil
-			}
-			cfg.HealthChecks.Active.Path = "/health"
-			cfg.Logging.Level = "info"
-			var blockers []net.Listener
-			defer func() {
-				for _, l := range blockers {
-					l.Close()
-				}
-			}()
-			take := func(port int) {
-				l, err := net.Listen("tcp", fmt.Sprintf(":%d", port))
-				if err == nil {
-					blockers = append(blockers, l)
-				}
-			}
-			expectFail := true
-			switch c.Kind {
-			case "metrics-port-taken":
-				cfg.Metrics = config.MetricsConfig{Enabled: true, Port: freePort(), Path: "/metrics"}
-				take(cfg.Metrics.Port)
-			case "admin-port-taken":
-				cfg.AdminAPI = config.AdminAPIConfig{Enabled: true, Port: freePort()}
-				take(cfg.AdminAPI.Port)
-			case "server-port-taken":
-				take(cfg.Server.Port)
-			case "tls-files-missing":
-				cfg.Server.TLS = config.TLSConfig{Enabled: true, CertFile: "/nonexistent/cert.pem", KeyFile: "/nonexistent/key.pem"}
-			case "duplicate-backend-names":
-				cfg.Backends = append(cfg.Backends, cfg.Backends[0])
-			case "unparsable-backend-address":
-				cfg.Backends[0].Address = "http://[::1"
-			case "same-port-twice":
-				cfg.Metrics = config.MetricsConfig{Enabled: true, Port: cfg.Server.Port, Path: "/metrics"}
-			default:
-				expectFail = false
-			}
-			if err := cfg.Validate(); err != nil {
-				o.Obs("variant_rejected_by_validation", 1)
-				return
-			}
-			data, _ := yaml.Marshal(cfg)
-			path := filepath.Join(e.TmpDir, fmt.Sprintf("%s-%d.yaml", c.Kind, c.Idx))
-			os.WriteFile(path, data, 0o644)
-			logp := path + ".log"
-			logf, _ := os.Create(logp)
-			cmd := exec.Command(e.BinPath, "-config", path)
-			cmd.Stdout, cmd.Stderr = logf, logf
-			if err := cmd.Start(); err != nil {
-				o.Inconcl("start: %v", err)
-				return
-			}
-			done := make(chan error, 1)
-			go func() { done <- cmd.Wait() }()
-			o.Eval(1)
-			o.Distinct(vh.J(c))
-			ports := map[string]int{"proxy": cfg.Server.Port}
-			if cfg.Metrics.Enabled {
-				ports["metrics"] = cfg.Metrics.Port
-			}
-			if cfg.AdminAPI.Enabled {
-				ports["admin"] = cfg.AdminAPI.Port
-			}
-			listening := func(port int) bool { return vh.PidListens(cmd.Process.Pid, port) }
-			exited := false
-			var exitErr error
-			t0 := time.Now()
-			// generous real-time bounds: up to 20 s to come up completely or to exit
-			for time.Since(t0) < 20*time.Second && !exited {
-				select {
-				case exitErr = <-done:
-					exited = true
-				default:
-					time.Sleep(20 * time.Millisecond)
-				}
-				if !exited {
-					all := true
-					for _, p := range ports {
-						if !listening(p) {
-							all = false
-						}
-					}
-					if all && (!expectFail || time.Since(t0) > 3*time.Second) {
-						break
-					}
-					if !all && expectFail && time.Since(t0) > 8*time.Second {
-						break // it keeps running without one of its listeners
-					}
-				}
-			}
-			logf.Close()
-			outb, _ := os.ReadFile(logp)
-			out := string(outb)
-			ctx := fmt.Sprintf("%s #%d", c.Kind, c.Idx)
-			if strings.Contains(out, "panic:") || strings.Contains(out, "goroutine 1 [") {
-				o.Viol("C18|binary|panic|"+c.Kind, fmt.Sprintf("%s: the binary printed a panic trace: %s", ctx, trunc(out, 600)), map[string]any{"config": string(data)})
-				if !exited {
-					cmd.Process.Kill()
-					<-done
-				}
-				return
-			}
-			if exited {
-				code := 0
-				if ee, ok := exitErr.(*exec.ExitError); ok {
-					code = ee.ExitCode()
-				}
-				if !expectFail {
-					o.Viol("C18|binary|accepted-config-exited", fmt.Sprintf("%s: an accepted configuration exited with code %d: %s", ctx, code, trunc(out, 400)), map[string]any{"config": string(data)})
-					return
-				}
-				if code == 0 {
-					o.Viol("C18|binary|exit-zero|"+c.Kind, fmt.Sprintf("%s: could not start but exited 0", ctx), nil)
-					return
-				}
-				if !strings.Contains(out, "level") && !strings.Contains(strings.ToLower(out), "err") && !strings.Contains(strings.ToLower(out), "fail") {
-					o.Viol("C18|binary|no-message|"+c.Kind, fmt.Sprintf("%s: exited %d without a clear error message: %q", ctx, code, trunc(out, 200)), nil)
-					return
-				}
-				o.Obs("binary_failed_cleanly", 1)
-				return
-			}
-			// still running: it must listen on everything that was configured and serve through the backend
-			var missing []string
-			for name, p := range ports {
-				if !listening(p) {
-					missing = append(missing, fmt.Sprintf("%s:%d", name, p))
-				}
-			}
-			sort.Strings(missing)
-			if len(missing) > 0 {
-				o.Viol("C18|binary|half-configured|"+c.Kind, fmt.Sprintf("%s: the process keeps running but does not listen on %v", ctx, missing), map[string]any{"output": trunc(out, 600), "config": string(data)})
-			} else {
-				hdr := [][2]string{{"X-API-Key", "secret"}}
-				rs := vh.Do(fmt.Sprintf("127.0.0.1:%d", cfg.Server.Port), vh.RawReq{Method: "GET", Target: "/", Headers: hdr, TimeoutMs: 5000})
-				if rs.Status != 200 {
-					o.Viol("C18|binary|started-not-serving", fmt.Sprintf("%s: started but a request through it got %d %q", ctx, rs.Status, rs.Err), map[string]any{"config": string(data)})
-				} else {
-					o.Obs("binary_started_completely", 1)
-				}
-			}
-			cmd.Process.Signal(syscall.SIGTERM)
-			select {
-			case <-done:
-			case <-time.After(10 * time.Second):
-				cmd.Process.Kill()
-				<-done
-			}
-			if c.Kind == "sample-file" && c.Idx == 0 {
-				o.Sample(map[string]any{"part": "binary", "case": c, "ports": ports, "result": "all listeners up, request served"})
-			}
+			o.Inconcl("binary case %v: the harness could not keep its ports free in 4 attempts", c)
 		})
 }
 
@@ -681,4 +493,205 @@ func c18ErrClass(err error) string {
 		s = s[:60]
 	}
 	return s
+}
+
+// c18BinOnce runs one process-level case; it returns true if the case must be repeated because a port the harness
+// had picked was taken by another process before the binary could bind it.
+func c18BinOnce(e *vh.Env, c c18Bin, o *vh.Out) bool {
+	be := vh.NewBackend("b0")
+	defer be.Close()
+	var cfg *config.Config
+	switch c.Kind {
+	case "sample-file":
+		f := []string{"helios.yaml", "helios.docker.yaml"}[c.Idx]
+		lc, err := config.LoadConfig(filepath.Join(e.RepoDir, f))
+		if err != nil {
+			o.Viol("C18|documented-rejected|"+f+"|"+c18ErrClass(err), fmt.Sprintf("%s: %v", f, err), nil)
+			return false
+		}
+		cfg = lc
+	default:
+		r := e.Rand("c18bin", c.Kind, c.Idx)
+		for {
+			m := map[string]int{}
+			for _, s := range c18Order {
+				vs := c18Sections[s]
+				for {
+					i := r.Intn(len(vs))
+					if vs[i].OK && !vs[i].MayRefuse {
+						m[s] = i
+						break
+					}
+				}
+			}
+			text, _, _ := c18Doc{m, "bin"}.text()
+			lc, err := c18LoadText(e, text, "bin")
+			if err == nil && !lc.Server.TLS.Enabled {
+				cfg = lc
+				break
+			}
+		}
+	}
+	// rewrite addresses and ports to this machine
+	for i := range cfg.Backends {
+		cfg.Backends[i].Address = be.URL
+	}
+	cfg.Server.Port = freePort()
+	if cfg.Metrics.Enabled {
+		cfg.Metrics.Port = freePort()
+	}
+	if cfg.AdminAPI.Enabled {
+		cfg.AdminAPI.Port = freePort()
+		cfg.AdminAPI.IPAllowList, cfg.AdminAPI.IPDenyList = nil, nil
+	}
+	cfg.HealthChecks.Active.Path = "/health"
+	cfg.Logging.Level = "info"
+	var blockers []net.Listener
+	defer func() {
+		for _, l := range blockers {
+			l.Close()
+		}
+	}()
+	take := func(port int) {
+		l, err := net.Listen("tcp", fmt.Sprintf(":%d", port))
+		if err == nil {
+			blockers = append(blockers, l)
+		}
+	}
+	expectFail := true
+	switch c.Kind {
+	case "metrics-port-taken":
+		cfg.Metrics = config.MetricsConfig{Enabled: true, Port: freePort(), Path: "/metrics"}
+		take(cfg.Metrics.Port)
+	case "admin-port-taken":
+		cfg.AdminAPI = config.AdminAPIConfig{Enabled: true, Port: freePort()}
+		take(cfg.AdminAPI.Port)
+	case "server-port-taken":
+		take(cfg.Server.Port)
+	case "tls-files-missing":
+		cfg.Server.TLS = config.TLSConfig{Enabled: true, CertFile: "/nonexistent/cert.pem", KeyFile: "/nonexistent/key.pem"}
+	case "duplicate-backend-names":
+		cfg.Backends = append(cfg.Backends, cfg.Backends[0])
+	case "unparsable-backend-address":
+		cfg.Backends[0].Address = "http://[::1"
+	case "same-port-twice":
+		cfg.Metrics = config.MetricsConfig{Enabled: true, Port: cfg.Server.Port, Path: "/metrics"}
+	default:
+		expectFail = false
+	}
+	if err := cfg.Validate(); err != nil {
+		o.Obs("variant_rejected_by_validation", 1)
+		return false
+	}
+	data, _ := yaml.Marshal(cfg)
+	path := filepath.Join(e.TmpDir, fmt.Sprintf("%s-%d.yaml", c.Kind, c.Idx))
+	os.WriteFile(path, data, 0o644)
+	logp := path + ".log"
+	logf, _ := os.Create(logp)
+	cmd := exec.Command(e.BinPath, "-config", path)
+	cmd.Stdout, cmd.Stderr = logf, logf
+	if err := cmd.Start(); err != nil {
+		o.Inconcl("start: %v", err)
+		return false
+	}
+	done := make(chan error, 1)
+	go func() { done <- cmd.Wait() }()
+	o.Eval(1)
+	o.Distinct(vh.J(c))
+	ports := map[string]int{"proxy": cfg.Server.Port}
+	if cfg.Metrics.Enabled {
+		ports["metrics"] = cfg.Metrics.Port
+	}
+	if cfg.AdminAPI.Enabled {
+		ports["admin"] = cfg.AdminAPI.Port
+	}
+	listening := func(port int) bool { return vh.PidListens(cmd.Process.Pid, port) }
+	exited := false
+	var exitErr error
+	t0 := time.Now()
+	// generous real-time bounds: up to 20 s to come up completely or to exit
+	for time.Since(t0) < 20*time.Second && !exited {
+		select {
+		case exitErr = <-done:
+			exited = true
+		default:
+			time.Sleep(20 * time.Millisecond)
+		}
+		if !exited {
+			all := true
+			for _, p := range ports {
+				if !listening(p) {
+					all = false
+				}
+			}
+			if all && (!expectFail || time.Since(t0) > 3*time.Second) {
+				break
+			}
+			if !all && expectFail && time.Since(t0) > 8*time.Second {
+				break // it keeps running without one of its listeners
+			}
+		}
+	}
+	logf.Close()
+	outb, _ := os.ReadFile(logp)
+	out := string(outb)
+	ctx := fmt.Sprintf("%s #%d", c.Kind, c.Idx)
+	if strings.Contains(out, "panic:") || strings.Contains(out, "goroutine 1 [") {
+		o.Viol("C18|binary|panic|"+c.Kind, fmt.Sprintf("%s: the binary printed a panic trace: %s", ctx, trunc(out, 600)), map[string]any{"config": string(data)})
+		if !exited {
+			cmd.Process.Kill()
+			<-done
+		}
+		return false
+	}
+	if exited {
+		code := 0
+		if ee, ok := exitErr.(*exec.ExitError); ok {
+			code = ee.ExitCode()
+		}
+		if !expectFail {
+			o.Viol("C18|binary|accepted-config-exited", fmt.Sprintf("%s: an accepted configuration exited with code %d: %s", ctx, code, trunc(out, 400)), map[string]any{"config": string(data)})
+			return false
+		}
+		if code == 0 {
+			o.Viol("C18|binary|exit-zero|"+c.Kind, fmt.Sprintf("%s: could not start but exited 0", ctx), nil)
+			return false
+		}
+		if !strings.Contains(out, "level") && !strings.Contains(strings.ToLower(out), "err") && !strings.Contains(strings.ToLower(out), "fail") {
+			o.Viol("C18|binary|no-message|"+c.Kind, fmt.Sprintf("%s: exited %d without a clear error message: %q", ctx, code, trunc(out, 200)), nil)
+			return false
+		}
+		o.Obs("binary_failed_cleanly", 1)
+		return false
+	}
+	// still running: it must listen on everything that was configured and serve through the backend
+	var missing []string
+	for name, p := range ports {
+		if !listening(p) {
+			missing = append(missing, fmt.Sprintf("%s:%d", name, p))
+		}
+	}
+	sort.Strings(missing)
+	if len(missing) > 0 {
+		o.Viol("C18|binary|half-configured|"+c.Kind, fmt.Sprintf("%s: the process keeps running but does not listen on %v", ctx, missing), map[string]any{"output": trunc(out, 600), "config": string(data)})
+	} else {
+		hdr := [][2]string{{"X-API-Key", "secret"}}
+		rs := vh.Do(fmt.Sprintf("127.0.0.1:%d", cfg.Server.Port), vh.RawReq{Method: "GET", Target: "/", Headers: hdr, TimeoutMs: 5000})
+		if rs.Status != 200 {
+			o.Viol("C18|binary|started-not-serving", fmt.Sprintf("%s: started but a request through it got %d %q", ctx, rs.Status, rs.Err), map[string]any{"config": string(data)})
+		} else {
+			o.Obs("binary_started_completely", 1)
+		}
+	}
+	cmd.Process.Signal(syscall.SIGTERM)
+	select {
+	case <-done:
+	case <-time.After(10 * time.Second):
+		cmd.Process.Kill()
+		<-done
+	}
+	if c.Kind == "sample-file" && c.Idx == 0 {
+		o.Sample(map[string]any{"part": "binary", "case": c, "ports": ports, "result": "all listeners up, request served"})
+	}
+	return false
 }
